@@ -127,8 +127,11 @@ def run_recorded(curve, s, kw, cap=1300):
                 if len(probes) > cap:
                     raise TooMany()
             return v
-        originals.append(orig)
-        seg.length = wrapped
+        try:
+            seg.length = wrapped
+            originals.append(orig)
+        except Exception:      # noqa  (the instance does not take attributes, e.g. __slots__: no probes from this segment, the run itself is still judged)
+            originals.append(None)
     try:
         try:
             r = curve.ilength(s, **kw)
@@ -284,6 +287,45 @@ def run(ck):
                     ck.disagree(key='inv_arclength/no-ValueError-outside', site='svgpathtools/path.py:inv_arclength',
                                 what='%s: ilength(%r, s_tol=%g) with L=%r gave %s' % (name, s, tol, L, out), case={'shape': name, 's': s, 'tol': tol},
                                 expected='ValueError', observed=str(out), driver='runs')
+    # the requested tolerance is honoured whatever its value: s_tol = 0 (as tight as the curve allows: the floating-point resolution of L), a tiny and a coarse one
+    for name, mk, uniform in shapes()[:8] + path_shapes()[:3]:
+        for k in (1e-3, 1.0):
+            curve = mk(k)
+            L = curve.length()
+            for tol in (0, 0.0, 1e-15 * L, 1e-3 * L):
+                for f in (0.17, 0.5, 0.83):
+                    s_ = L * f
+                    ck.case(fp=(name, k, 'requested-tolerance', tol, f), nontrivial=True)
+                    try:
+                        r_ = curve.ilength(s_, s_tol=tol)
+                        back = curve.length(0, r_)
+                        ok = 0 <= r_ <= 1 and abs(back - s_) <= max(tol, 1e-12 * k + 64 * math.ulp(L))
+                    except Exception as e:      # noqa
+                        ok, r_, back = False, e, None
+                    if not ok:
+                        ck.disagree(key='inv_arclength/requested-tolerance-not-honoured', site='svgpathtools/path.py:inv_arclength', what='%s scale %g: ilength(%r, s_tol=%r) = %r, length(0, .) = %r (L = %r)' % (name, k, s_, tol, r_, back, L),
+                                    case={'shape': name, 'scale': k, 'tol': tol, 'frac': f}, expected=s_, observed=repr(back), driver='runs')
+                        break
+    # paths with members shorter than the tolerance (a joining line of 5e-13, members of 4e-4 under s_tol = 1e-3): every s in [0, L] is answered
+    tiny_paths = [('5e-13 joiner', sp.Path(sp.Line(0j, 1e-3 + 0j), sp.Line(1e-3 + 0j, 1e-3 + 5e-13j), sp.CubicBezier(1e-3 + 5e-13j, 2e-3 + 1e-3j, 3e-3 - 1e-3j, 4e-3 + 0j)), None),
+                  ('4e-4 members, s_tol 1e-3', sp.Path(sp.Line(0j, 4e-4 + 0j), sp.QuadraticBezier(4e-4 + 0j, 6e-4 + 2e-4j, 8e-4 + 0j), sp.Line(8e-4 + 0j, 1 + 0j)), 1e-3),
+                  ('zero-length-free short cubic first', sp.Path(sp.CubicBezier(0j, 1e-13 + 1e-13j, 2e-13 - 1e-13j, 3e-13 + 0j), sp.Line(3e-13 + 0j, 1 + 1j)), None)]
+    for name, pth, tol in tiny_paths:
+        L = pth.length()
+        lens = [sg_.length() for sg_ in pth]
+        probes_ = [0.0, L, L / 2] + [sum(lens[:i_]) + f_ * lens[i_] for i_ in range(len(lens)) for f_ in (0.0, 0.5, 1.0)]
+        for s_ in probes_:
+            s_ = min(max(s_, 0.0), L)
+            ck.case(fp=(name, 'tiny-member', s_), nontrivial=True)
+            try:
+                r_ = pth.ilength(s_) if tol is None else pth.ilength(s_, s_tol=tol)
+                ok = 0 <= r_ <= 1 and abs(pth.length(0, r_) - s_) <= max(tol or 0, 1e-12 + 64 * math.ulp(L))
+            except Exception as e:      # noqa
+                ok, r_ = False, e
+            if not ok:
+                ck.disagree(key='inv_arclength/member-shorter-than-the-tolerance', site='svgpathtools/path.py:inv_arclength', what='%s: ilength(%r%s) = %r (L = %r, members %r)' % (name, s_, '' if tol is None else ', s_tol=%g' % tol, r_, L, lens),
+                            case={'path': name, 's': s_}, expected='a parameter in [0, 1] whose arc length is s', observed=repr(r_), driver='runs')
+                break
     # a coarse request followed by a fine one on the same object (nothing learnt in the first call may limit the accuracy of the second)
     for name, mk, uniform in shapes()[3:8] + path_shapes()[2:3]:
         for k in (1.0, 1e3):
